@@ -145,7 +145,7 @@ NTP = len(TYPE_PAIRS)
 FIELD_ORDER = "abcd"
 # profile ("U", i): every field has type pair i;  ("R", i): field a,b,c,d have pairs i, i+1, i+2, i+3 (mod NTP)
 ALL_PROFILES = [("U", i) for i in range(NTP)] + [("R", i) for i in range(NTP)]
-QUICK_PROFILES = [("U", 0), ("U", 1), ("U", 2), ("R", 0), ("R", 7)]
+QUICK_PROFILES = [("U", 0), ("U", 9), ("R", 1), ("R", 5), ("R", 12)]
 
 
 def pair_of(profile, name):
@@ -831,7 +831,7 @@ def gen_f2(tier):
     profiles = QUICK_PROFILES if tier == "quick" else F2_PROFILES
     for S, D in shapes(tier == "quick"):
         has_added = bool([n for n in D if n not in S])
-        for params in PARAM_LISTS_RECIPE:
+        for params in (PARAM_LISTS_RECIPE[:3] if tier == "quick" else PARAM_LISTS_RECIPE):
             for profile in profiles:
                 masks = ["none"]
                 if has_added and (tier == "thorough" and profile in (("U", 0), ("R", 0)) or tier == "quick" and profile == ("U", 0)):
@@ -881,7 +881,7 @@ def gen_f3(tier):
 
 def gen_f4(tier):
     """all ordered pairs of model kinds on the 2-field core (and the core plus one added field)"""
-    profiles = QUICK_PROFILES[:3] if tier == "quick" else F4_PROFILES
+    profiles = QUICK_PROFILES[:2] if tier == "quick" else F4_PROFILES
     cores = [("ab", "ab", "none"), ("ab", "abd", "added"), ("ab", "dab", "added")]
     if tier == "thorough":
         cores += [("ab", "abd", "none"), ("ab", "ab", "all")]
@@ -906,7 +906,7 @@ STYLES = ["pos", "kwonly", "default"]
 
 def gen_f5(tier):
     """every entry point x parameter style on a fixed family of programs (recipes of length <= 1; length 2 on the core shape)"""
-    profiles = QUICK_PROFILES[:2] if tier == "quick" else QUICK_PROFILES
+    profiles = QUICK_PROFILES[:1] if tier == "quick" else QUICK_PROFILES
     for S, D in (("ab", "abd"), ("a", "ad"), ("ab", "ab")):
         for profile in profiles:
             for params in ([], ["q"], ["d", "q"], ["q", "a"]):
